@@ -82,6 +82,58 @@ fn drive<E: Elem, D: DoubleEndedIterator<Item = E> + ExactSizeIterator>(mut d: D
                 visit(e, tr, held);
             }
         }
+        Term::FindAt(k) | Term::RfindAt(k) => {
+            let mut shown = 0usize;
+            let pred = |_: &E| {
+                shown += 1;
+                shown == k as usize + 1
+            };
+            let f = if matches!(term, Term::FindAt(_)) { d.find(pred) } else { d.rfind(pred) };
+            if let Some(e) = f {
+                visit(e, tr, held);
+            }
+            for e in d {
+                visit(e, tr, held);
+            }
+        }
+        Term::PositionAt(k) | Term::RpositionAt(k) => {
+            let mut shown = 0usize;
+            let pred = |e: E| {
+                shown += 1;
+                visit(e, tr, held);
+                shown == k as usize + 1
+            };
+            let p = if matches!(term, Term::PositionAt(_)) { d.position(pred) } else { d.rposition(pred) };
+            tr.term_count = Some(p.unwrap_or(usize::MAX));
+            for e in d {
+                tr.term_items.push((e.label(), e.ident()));
+                held.push(e);
+            }
+        }
+        Term::All => {
+            let _ = d.all(|e| {
+                visit(e, tr, held);
+                true
+            });
+            for e in d {
+                visit(e, tr, held);
+            }
+        }
+        Term::Any => {
+            let _ = d.any(|e| {
+                visit(e, tr, held);
+                false
+            });
+            for e in d {
+                visit(e, tr, held);
+            }
+        }
+        Term::Collect => {
+            let v: Vec<E> = d.collect();
+            for e in v {
+                visit(e, tr, held);
+            }
+        }
     }
 }
 
@@ -238,6 +290,13 @@ fn run_shape<E: Elem>(c: usize, r: usize, ctx: &mut Ctx) {
                                         v.extend(rest[..rest.len() - 1].iter().copied());
                                     }
                                     (None, v)
+                                }
+                                Term::FindAt(_) | Term::RfindAt(_) | Term::PositionAt(_) | Term::RpositionAt(_) | Term::All | Term::Any | Term::Collect => {
+                                    let toks: Vec<Tok> = (0..rest.len()).map(|k| (k, 0)).collect();
+                                    let ji = super::seqx::jump_ideal(term, &toks).unwrap();
+                                    let items = ji.visited.iter().chain(ji.left.iter().flatten()).map(|t| rest[t.0]).collect();
+                                    let cnt = if matches!(term, Term::PositionAt(_) | Term::RpositionAt(_)) { Some(ji.index.unwrap().unwrap_or(usize::MAX)) } else { None };
+                                    (cnt, items)
                                 }
                             };
                             if tr.term_count != exp_count || tr.term_items != exp_items {
